@@ -55,11 +55,14 @@ type View struct {
 
 func hasCtrl(m metav1.Object) *metav1.OwnerReference { return world.ControllerOf(m) }
 
-// ListedRevisions returns the revisions a set's two list calls return (by
-// selector and by upgrade marker), each once.
+// ListedRevisions returns the revisions a set may consider its history: found
+// by selector or by upgrade marker, each once, and not controlled by another owner.
 func ListedRevisions(snap simapi.Snapshot, set *asv1.StatefulSet, sel labels.Selector) []*appsv1.ControllerRevision {
 	var out []*appsv1.ControllerRevision
 	for _, rev := range world.RevisionsOf(snap, set.Namespace) {
+		if c := hasCtrl(rev); c != nil && c.UID != set.UID {
+			continue // controlled by somebody else: never the set's to use (C10)
+		}
 		if sel.Matches(labels.Set(rev.Labels)) || rev.Labels[helper.UpgradeToAdvancedStatefulSetAnn] == set.Name {
 			out = append(out, rev)
 		}
@@ -160,7 +163,7 @@ func NewView(r *world.Record) *View {
 	var best *appsv1.ControllerRevision
 	for _, rev := range v.RevsAfter {
 		if t := world.DecodeRevisionTemplate(rev); t != nil && TemplateEqual(t, &s.Spec.Template) {
-			if best == nil || rev.Revision > best.Revision {
+			if best == nil || revLess(best, rev) {
 				best = rev
 			}
 		}
